@@ -50,6 +50,15 @@ class Pty:
         fcntl.ioctl(self.master, termios.TIOCSWINSZ, struct.pack("HHHH", rows, cols, 0, 0))
         self.rows, self.cols = rows, cols
 
+    def feed_nowait(self, data):
+        """write without waiting for arrival (canonical mode hides bytes from FIONREAD)"""
+        os.set_blocking(self.master, True)
+        try:
+            os.write(self.master, data)
+        finally:
+            os.set_blocking(self.master, False)
+        time.sleep(0.0005)
+
     def feed(self, data, timeout=5.0):
         """Write to the master and wait until the slave reports all of it readable
         (delivery is asynchronous). Returns True when arrived."""
